@@ -1,6 +1,7 @@
 package main
 
 import (
+	"golang.org/x/tools/go/ssa"
 	"fmt"
 	"go/types"
 )
@@ -56,7 +57,7 @@ func (vc *VC) mapStore(st *State, mt *types.Map, m, k, v string) {
 	d, vv := vc.enc.mapMems(mt)
 	dcur, vcur := vc.mapMemAt(st, d), vc.mapMemAt(st, vv)
 	// length: inserting an absent key adds one, overwriting a present key keeps the length
-	{
+	if vc.usesMapLen() {
 		fn := vc.maplenDecl(mt)
 		ks := vc.enc.sortOf(mt.Key())
 		dold := vc.def("mapdom.old", fmt.Sprintf("(Array %s Bool)", ks), fmt.Sprintf("(select %s %s)", dcur, m))
@@ -70,7 +71,7 @@ func (vc *VC) mapStore(st *State, mt *types.Map, m, k, v string) {
 func (vc *VC) mapDelete(st *State, mt *types.Map, m, k string) {
 	d, _ := vc.enc.mapMems(mt)
 	dcur := vc.mapMemAt(st, d)
-	{
+	if vc.usesMapLen() {
 		fn := vc.maplenDecl(mt)
 		ks := vc.enc.sortOf(mt.Key())
 		dold := vc.def("mapdom.old", fmt.Sprintf("(Array %s Bool)", ks), fmt.Sprintf("(select %s %s)", dcur, m))
@@ -92,4 +93,28 @@ func (vc *VC) mapLen(st *State, mt *types.Map, m string) string {
 	e := vc.enc
 	fn := vc.maplenDecl(mt)
 	return fmt.Sprintf("(ite (= %s 0) %s (%s (select %s %s)))", m, e.ilit(0), fn, vc.mapMemAt(st, d), m)
+}
+
+// usesMapLen: does the function under verification take the length of a map? Only then are the length
+// update lemmas emitted at map writes (they slow unrelated map proofs down noticeably).
+func (vc *VC) usesMapLen() bool {
+	if vc.mapLenUse != 0 {
+		return vc.mapLenUse > 0
+	}
+	vc.mapLenUse = -1
+	if vc.fn == nil {
+		return false
+	}
+	for _, b := range vc.fn.Blocks {
+		for _, in := range b.Instrs {
+			if c, ok := in.(*ssa.Call); ok {
+				if bi, ok := c.Call.Value.(*ssa.Builtin); ok && bi.Name() == "len" && len(c.Call.Args) == 1 {
+					if _, isMap := c.Call.Args[0].Type().Underlying().(*types.Map); isMap {
+						vc.mapLenUse = 1
+					}
+				}
+			}
+		}
+	}
+	return vc.mapLenUse > 0
 }
